@@ -173,13 +173,23 @@ theorem canonPageBlock_eraseMargins (lv : Nat) (b : SPageBlock) :
 
 /-! ### rules, statements, the sheet -/
 
+theorem canonName_stored (tail : Gap) (name : SName) :
+    storedName ((canonName tail name).map (·.2.1)) = storedName (name.map (·.2.1)) := by
+  cases name with
+  | none => rfl
+  | some p =>
+    obtain ⟨q, n, g⟩ := p
+    cases n with
+    | nil => simp [canonName, storedName]
+    | cons c t => simp [canonName, storedName]
+
 mutual
 theorem canonRule_erase (lv : Nat) : (r : SRule) → (canonRule lv r).erase = r.erase
   | .comment b => by simp [canonRule, SRule.erase]
   | .style sel blk => by simp [canonRule, SRule.erase, canonSel_erase, canonBlock_erase]
   | .unknown t => by simp [canonRule, SRule.erase]
-  | .media kw g1 mq g2 lead rules => by
-    simp only [canonRule, SRule.erase]; rw [canonRules_erase (lv + 1) true rules]
+  | .media kw g1 mq g2 name lead rules => by
+    simp only [canonRule, SRule.erase]; rw [canonRules_erase (lv + 1) true rules, canonName_stored]
   | .fontface kw g1 blk => by simp [canonRule, SRule.erase, canonBlock_erase]
   | .page kw g0 sel g1 blk => by
     simp [canonRule, SRule.erase, canonPageSel, canonPageBlock_eraseItems, canonPageBlock_eraseMargins]
@@ -193,13 +203,41 @@ theorem canonImp_erase (r : SImp) : (canonImp r).erase = r.erase := by
   cases r with
   | comment b => rfl
   | unknown t => rfl
-  | import_ kw g1 href g2 mq => cases mq <;> simp [canonImp, SImp.erase, canonHref_value]
+  | import_ kw g1 href g2 mq name => cases mq <;> simp [canonImp, SImp.erase, canonHref_value, canonName_stored]
 
 theorem canonNs_erase (r : SNs) : (canonNs r).erase = r.erase := by
   cases r with
   | comment b => rfl
   | unknown t => rfl
   | namespace_ kw g1 pfx uri g2 => cases pfx <;> simp [canonNs, SNs.erase, canonNsUri, SHref.value]
+
+/-! ### `@variables` -/
+
+theorem canonVarDecl_erase (c : Option Ws) (d : SVarDecl) : (canonVarDecl c d).erase = d.erase := rfl
+
+theorem layVarItems_erase (lv : Nat) : (l : List SVarDecl) →
+    (layVarItems lv l).1.map (fun p => p.1.erase) ++ ((layVarItems lv l).2.map SVarDecl.erase).toList =
+      l.map SVarDecl.erase
+  | [] => rfl
+  | [d] => by simp [layVarItems, canonVarDecl_erase]
+  | d :: e :: rest => by
+    have ih := layVarItems_erase lv (e :: rest)
+    simp only [layVarItems, List.map_cons, List.cons_append, canonVarDecl_erase] at ih ⊢
+    rw [ih]
+
+theorem canonVarBlock_erase (lv : Nat) (b : SVarBlock) : (canonVarBlock lv b).erase = b.erase := by
+  have h := layVarItems_erase lv (varDecls b)
+  simp only [SVarBlock.erase, canonVarBlock]
+  rw [h]
+  congr 1
+  simp only [varDecls, List.map_append, List.map_map]
+  cases b.last <;> simp [Function.comp_def]
+
+theorem canonVar_erase (r : SVar) : (canonVar r).erase = r.erase := by
+  cases r with
+  | comment b => rfl
+  | unknown t => rfl
+  | variables kw g0 blk => simp [canonVar, SVar.erase, canonVarBlock_erase]
 
 theorem layStmts_map {α β : Type} (f : α → α) (e : α → β) (he : ∀ x, e (f x) = e x) (more : Bool)
     (l : List (α × WGap)) : (layStmts f more l).map (fun p => e p.1) = l.map (fun p => e p.1) := by
@@ -210,7 +248,7 @@ theorem layStmts_map {α β : Type} (f : α → α) (e : α → β) (he : ∀ x,
 theorem canonV_erase (s : SSheet) : (canonV s).erase = s.erase := by
   simp only [canonV, SSheet.erase]
   rw [layStmts_map canonImp SImp.erase canonImp_erase, layStmts_map canonNs SNs.erase canonNs_erase,
-    canonRules_erase]
+    layStmts_map canonVar SVar.erase canonVar_erase, canonRules_erase]
   cases s.charset <;> simp
 
 end CssVerif.SheetCanon
